@@ -418,6 +418,13 @@ func exhaustiveC02(thorough bool, emit func(C02Case) bool) {
 		}
 	}
 	// multi-byte tokens at the start and inside of every field, first and later records
+	// a delimiter next to every other byte, inside and across machine words of a name and of
+	// the qualities
+	if !bytePairFields("@+>", "\r\n", func(v gen.B) bool {
+		return emit(C02Case{Recs: []FastqRec{{Name: v, Seq: gen.Lit([]byte("ACGTACGTACGTACGT")), Quals: gen.Lit(v)}, mk("plain", "AC", "II")}})
+	}) {
+		return
+	}
 	// twin records: fields of equal length that differ in one byte, in one stream
 	if !twinFields(func(a, b gen.B) bool {
 		r := func(n, q, u gen.B) FastqRec { return FastqRec{Name: n, Seq: gen.Lit(q), Quals: gen.Lit(u)} }
